@@ -751,8 +751,8 @@ Section Store.
     {| m_frags := m_frags m; m_schema := m_schema m; m_maxfid := x; m_config := m_config m; m_indices := m_indices m |}.
 
   (* Transaction::build_manifest on an existing dataset, without stable row ids.
-     Clone and Restore never reach it.  UpdateMemWalState leaves `final_fragments` EMPTY (the arm only edits
-     the index list): transcribed as such - see Known_C03_update_mem_wal_state_drops_fragments. *)
+     Clone and Restore never reach it.  UpdateMemWalState keeps the fragments (since /repo 6e8b596; before that fix
+     the arm left `final_fragments` empty) and edits the MemWAL index, which is opaque here. *)
   Definition build_manifest (cur : manifest) (o : op) : outcome manifest :=
     let next := match o with Overwrite _ _ _ => 0
                 | _ => match max_fragment_id cur with Some x => x + 1 | None => 0 end end in
@@ -812,7 +812,7 @@ Section Store.
                  let unchanged := filter (fun f => negb (memN (f_id f) (map fst repl))) (m_frags cur) in
                  Ok (mk_manifest cur s (changed ++ unchanged) (m_indices cur))
              end
-    | UpdateMemWalState _ _ _ => Ok (mk_manifest cur s [] (m_indices cur))
+    | UpdateMemWalState _ _ _ => Ok (mk_manifest cur s (m_frags cur) (m_indices cur))
     | UpdateBases _ => Ok (mk_manifest cur s (m_frags cur) (m_indices cur))
     end.
 
